@@ -616,16 +616,18 @@ def gen_block(stmt, names_env, info):
     out.append("    IR.loop %s %s st.data_sum g" % (nm, nd))
     out.append("      (" + "\n        ++ ".join(shifts) + ")")
     # --- instantiate the whole else-branch on sample sizes and compare with what the emitted text denotes there
+    # (the gain chain is left out: it is translated symbolically above, `expr` stays the joined sum)
+    rest = [blk[0]] + blk[2:]
     for la, lb in ((1, 1), (2, 1), (1, 2), (3, 4), (4, 2), (2, 2), (1, 0)):
-        for gain in (1, -1, 5):
-            env = srun(blk, {"data_sum": ["__S"], "gain": gain, "la": la, "lb": lb, "lm": twin_nat(names_env["lm"], la, lb),
-                             "num_iterables": [], "den_iterables": [], "zero": "__Z"})
-            k = parse_generated(env["gen_func"])
-            need(k[0] == "loop" and k[1] == ["seq", "memory", "zero"], "loop generator for la=%d lb=%d: %r" % (la, lb, k))
-            want = denote(nm, nd, shifts, la, lb, twin_nat(names_env["lm"], la, lb))
-            need((k[2], k[3], k[5]) == want, "line templates instantiated at la=%d lb=%d give (nm, nd, shifts) = %r, the "
-                 "emitted definition denotes %r" % (la, lb, (k[2], k[3], k[5]), want))
-            need(k[4] == {1: "__S", -1: "-__S", 5: "__S / 5"}[gain] or len(branches) != 2, "m0 = %s for gain %d" % (k[4], gain))
+        lmv = twin_nat(names_env["lm"], la, lb)
+        env = srun(rest, {"data_sum": ["__S", "__T"], "la": la, "lb": lb, "lm": lmv, "num_iterables": [], "den_iterables": [],
+                          "zero": "__Z"})
+        k = parse_generated(env["gen_func"])
+        need(k[0] == "loop" and k[1] == ["seq", "memory", "zero"], "loop generator for la=%d lb=%d: %r" % (la, lb, k))
+        want = denote(nm, nd, shifts, la, lb, lmv)
+        need((k[2], k[3], k[5]) == want, "line templates instantiated at la=%d lb=%d give (nm, nd, shifts) = %r, the "
+             "emitted definition denotes %r" % (la, lb, (k[2], k[3], k[5]), want))
+        need(k[4] == "__S + __T", "the loop line computes m0 = %s from the joined sum `__S + __T`" % k[4])
     return out
 
 
